@@ -20,6 +20,8 @@ pub struct ProbeCounts {
     pub stale_after_growth: u64,
     pub rows_compared: u64,
     pub directs_by_source: std::collections::BTreeMap<&'static str, u64>,
+    /// every direct handle obtained, per source (also the ones equal to one already recorded)
+    pub directs_seen_by_source: std::collections::BTreeMap<&'static str, u64>,
 }
 
 impl<W: WorldOps> Engine<W> {
@@ -134,6 +136,7 @@ impl<W: WorldOps> Engine<W> {
         let s = self.slot(wi);
         let ai = s.m.ents[uid].arch;
         let rec = MDirect { handle: d, arch: ai, uid, removals: s.m.archs[ai].removals, creations: s.m.archs[ai].creations, source, step };
+        *pc.directs_seen_by_source.entry(source).or_insert(0) += 1;
         if s.m.add_direct(rec) {
             *pc.directs_by_source.entry(source).or_insert(0) += 1;
         }
